@@ -39,5 +39,9 @@ for sid, d in det.items():
         'checks_run': 'tools/try_seed.sh patch.diff quick <Cxx> (git -C /repo apply; ./check; git -C /repo checkout -- .)',
         'detected_by': d['caught_by'], 'superseded_by_fix': d.get('superseded_by_fix', ''), 'first_attempt': d['first_attempt'], 'shortest_witness': d.get('witness', ''),
     }
+    if d.get('superseded_by_fix'):
+        meta['confirmed_in_scratch_worktree']['patch_applies_to'] = (
+            'the tree before fix %s; on %s and later the demo exits 0 with the change applied (re-verified), '
+            'i.e. the change no longer breaks the property' % (d['superseded_by_fix'], d['superseded_by_fix']))
     json.dump(meta, open(f'{dst}/meta.json', 'w'), indent=1)
     print('saved', sid)
